@@ -41,7 +41,14 @@ def _inplace_enabled(operation_method=None, *, default=False):
             else:
                 self.INPLACE_ENABLED_PLACEHOLDER = self.copy()
 
-            processed_copy = operation_method(self, *args, **kwargs)
+            try:
+                processed_copy = operation_method(self, *args, **kwargs)
+            except Exception:
+                # The method may have failed before it reached
+                # `_inplace_enabled_define_and_cleanup`, in which
+                # case the placeholder must not be left behind
+                self.__dict__.pop("INPLACE_ENABLED_PLACEHOLDER", None)
+                raise
 
             if is_inplace:
                 return  # decorated function returns None in this case
